@@ -33,7 +33,8 @@ META = {
                  'exactly at \\n, \\r\\n, \\r over all strings (regular-language equality against the str.splitlines '
                  'separator set, RX-3/4), no Unicode-whitespace str API is applied to source text outside reasoned sites '
                  '(RX-11), token kinds whose value language contains a line break never map to the single-line end_pos '
-                 'leaf classes (TREE-8, language emptiness). Positions themselves are numeric and not decided.',
+                 'leaf classes (TREE-8, language emptiness); no position-derived memo on a tree class survives the in-place '
+                 'incremental re-parse (TREE-6, dominators). Positions themselves are numeric and not decided.',
         'note': _TB + 'Reference set of splitlines separators is computed from the interpreter (CPython behaviour, not parso).',
         'technique': 'regular-language equality / emptiness over re syntax trees + API-ban lint with reasoned sites',
     },
@@ -133,7 +134,8 @@ META = {
         'level': 'Decides exhaustiveness of the helper tables w.r.t. every shipped grammar: the container tables equal the '
                  'container node types computed from the grammars (GR-8a), every rule with a binding operator is a definition '
                  'type, delegated or special-cased (GR-8b), text comparisons in the helpers are leaf-category safe (TC-1), no '
-                 'unbound local in python/tree.py (DA). Agreement with CPython\'s ast over all programs is not decided.',
+                 'unbound local in python/tree.py (DA); helper results memoised on the tree are reset by the incremental '
+                 'parser (TREE-6). Agreement with CPython\'s ast over all programs is not decided.',
         'note': _TB + 'Three listed known findings (inline := in argument / dictorsetmaker / subscript).',
         'technique': 'grammar reachability with tree-shape conventions vs. helper tables + leaf-category analysis',
     },
